@@ -42,6 +42,7 @@ def run(ck: Checker, prog: Program, tier: str):
     ck.guard(_filter_design, ck, prog)
     ck.guard(_r1, ck, prog)
     ck.guard(_orientation_step, ck, prog)
+    ck.guard(_detrend_unconditional, ck, prog)
     ck.guard(_r2, ck, prog)
     ck.guard(_r3_r4, ck, prog)
     # the corner frequencies / window length / detrend type a run reads are its own settings object's, not state shared through
@@ -54,6 +55,33 @@ def run(ck: Checker, prog: Program, tier: str):
         ck.guard(c04._orientation_carried, ck, prog)
     with ck.borrow(c15, "C10.R1+"):
         ck.guard(c15.check_constructors, ck, prog, [prog.cls(cname) for cname in ("Settings", "PreProcessingSettings", "HvsrPreProcessingSettings", "PsdPreProcessingSettings")])
+
+
+def _detrend_unconditional(ck: Checker, prog: Program, rule: str = "C10.R1"):
+    """TimeSeries.detrend removes the trend of every series it is asked to: one path, which stores
+    scipy.signal.detrend(self.amplitude, type=type) - no shortcut that depends on the samples (a "flat enough" test is a
+    tolerance on the data, and windows that differ by less than it would come back untouched)."""
+    from ..pathtable import PathTable
+    f = prog.func("timeseries.TimeSeries.detrend")
+    q = f.qualname
+    leaves = PathTable(prog, f.module, structured=True).leaves([st for st in f.node.body if not (isinstance(st, ast.Expr) and isinstance(st.value, ast.Constant))])
+    live = [l for l in leaves if l.exit != "raise"]
+    F = sp.Function
+    S_, TY = sp.Symbol(f.params[0], real=True), sp.Symbol(f.params[1] if len(f.params) > 1 else "type", real=True)
+    AMP = F("attr_amplitude")(S_)
+    good = []
+    for l in live:
+        stores = [e for e in l.events if e[0] == "store" and e[1] == "self.amplitude"]
+        v = stores[-1][2] if stores else None
+        ok_v = v is not None and getattr(getattr(v, "func", None), "__name__", "") == "detrend" and v.args and v.args[0] == AMP \
+            and any(a == F("kw_type")(TY) or a == TY for a in v.args[1:])
+        good.append(ok_v)
+    data_conds = [str(c) for l in live for c, _t in l.conds if sp.sympify(c).has(AMP)]
+    if live and all(good) and not data_conds:
+        ck.ok(rule, q, "self.amplitude = detrend(self.amplitude, type=type) on every path", detail=f"{len(live)} path(s)")
+    else:
+        why = f"a path depends on the samples ({data_conds[0][:80]})" if data_conds else "a path does not store detrend(self.amplitude, type=type)"
+        ck.violation(rule, q, "detrend applied", f"TimeSeries.detrend does not detrend every series it is given: {why}", loc=f.loc())
 
 
 def _orientation_step(ck: Checker, prog: Program):
